@@ -284,6 +284,38 @@ def oracle_plane(R=30, C=40, negate=False, planes=0):
     return False, None, None
 
 
+def oracle_fine(negate=False, N=120):
+    """regions and depths finer than the pixel grid, pixels far below an arcsecond: 0.05 arcsec pixels against explicit
+    depth-18 cells (0.8 arcsec); the oracle takes each pixel centre through astropy (float64) and healpy ang2pix"""
+    import healpy as hp
+    from astropy.io import fits
+    from astropy.wcs import WCS
+    mim = loader.real('MIMAS')
+    regions = loader.real('regions')
+    hdr = fits.Header()
+    hdr['CTYPE1'], hdr['CTYPE2'] = 'RA---SIN', 'DEC--SIN'
+    hdr['CRVAL1'], hdr['CRVAL2'] = 201.3, -43.0
+    hdr['CRPIX1'], hdr['CRPIX2'] = N / 2.0, N / 2.0
+    hdr['CDELT1'], hdr['CDELT2'] = -0.05 / 3600, 0.05 / 3600
+    wcs = WCS(hdr, naxis=2)
+    jj, ii = real_np.meshgrid(real_np.arange(N), real_np.arange(N))
+    sky = wcs.all_pix2world(real_np.column_stack([jj.ravel(), ii.ravel()]), 0)
+    cell = hp.ang2pix(2 ** 18, real_np.radians(90 - sky[:, 1]), real_np.radians(sky[:, 0]), nest=True)
+    cells = sorted(set(int(x) for x in cell))
+    keep = set(cells[::2])                        # every other cell that the image touches
+    reg = regions.Region(maxdepth=18)
+    reg.add_pixels(sorted(keep), 18)
+    data = real_np.arange(N * N, dtype=float).reshape(N, N)
+    out = mim.mask_plane(data.copy(), wcs, reg, negate=negate)
+    inside = real_np.array([int(x) in keep for x in cell]).reshape(N, N)
+    want_blank = inside if negate else ~inside
+    got_blank = ~real_np.isfinite(out)
+    nbad = int((want_blank != got_blank).sum())
+    if nbad:
+        return True, 'pixel-position-precision', '%d of %d pixels of a %dx%d image with 0.05 arcsec pixels masked differently from the float64 pixel-centre oracle (depth-18 cells, negate=%s)' % (nbad, N * N, N, N, negate)
+    return False, None, None
+
+
 def oracle_file(negate=False, R=12, C=15):
     """real mask_file on a 3-plane cube with pre-existing blanks that differ between planes"""
     import os
@@ -408,7 +440,7 @@ def run(rep):
     rep.end_kernel()
     # executor validation / property-level runs on the real code
     for neg in (False, True):
-        for fn, kind, k in ((oracle_plane, 'plane', 'K-mask_plane'), (oracle_table, 'table', 'K-mask_table'), (oracle_file, 'file', 'K-mask_file')):
+        for fn, kind, k in ((oracle_plane, 'plane', 'K-mask_plane'), (oracle_table, 'table', 'K-mask_table'), (oracle_file, 'file', 'K-mask_file'), (oracle_fine, 'fine', 'K-mask_plane')):
             bad, cls, detail = fn(negate=neg)
             rep.validated_runs(1)
             if bad:
@@ -424,7 +456,7 @@ def replay(w):
         bad, cls, detail = C08.replay_case(w['witness'])
         return bad, '%s: %s' % (cls, detail)
     wit = w['witness']
-    fn = {'plane': oracle_plane, 'file': oracle_file}.get(wit.get('kind'), oracle_table)
+    fn = {'plane': oracle_plane, 'file': oracle_file, 'fine': oracle_fine}.get(wit.get('kind'), oracle_table)
     bad, cls, detail = fn(negate=bool(wit.get('negate')))
     return bad, '%s: %s' % (cls, detail)
 
